@@ -132,6 +132,8 @@ def c11_3(ctx):
     good = False
     for c in ext:
         fcl = filter_facts_at(ctx, fac, c, res)
+        if "('isnone', 'data_match.group(3)', True)" in repr(fcl) or any(('isnone', 'data_match.group(3)', True) in cl_ and len(cl_) == 1 for cl_ in fcl):
+            continue      # the numeric-list branch builds its list of item texts; no string, no terminator
         a = unparse(c.args[0])
         term = a in ('[cstr_terminator]', 'cstr_terminator')
         txt = describe_facts(fcl)
@@ -229,7 +231,7 @@ def c11_4(ctx):
         if blk is None:
             ctx.err(f'factory:{pat}', df.site(), 'directive block found', 'not found')
             continue
-        ctor = [c for c in ast.walk(blk) if isinstance(c, ast.Call) and unparse(c.func) == cname]
+        ctor = [c for b_ in blk.body for c in ast.walk(b_) if isinstance(c, ast.Call) and unparse(c.func) == cname]
         ok = len(ctor) == 1
         got = None
         if ok:
